@@ -158,27 +158,9 @@ def h_raise(F, R):
             R.check(ok, "H-raise", "placement/%s/%s" % (v, root),
                     "%s is raised in %s; the catalogue documents it for: %s" % (v, root, ", ".join(allowed)), where=loc(s["node"]))
         R.floor("H-raise", "sites raising %s" % v, len(lst), spec["min_sites"])
-    # (3) reason-code bytes: every `<X>ReasonCode::from_u8(b)` in a decoder is `.ok_or(InvalidReasonCode(header.typ, b))?`
-    k = 0
-    for fid, f, b in all_bodies(F):
-        for x in walk_all(b):
-            if x.get("k") == "Call" and x["fn"].get("name") == "from_u8" and (x["fn"].get("impl_self") or "").endswith("ReasonCode") \
-                    and "decode" in f["root"]:
-                k += 1
-                par = _parents(b)
-                p = par.get(id(x))
-                while p is not None and p.get("k") in ("Borrow", "Deref"):
-                    p = par.get(id(p))
-                ok = p is not None and p.get("k") == "Call" and p["fn"].get("name") == "ok_or"
-                if ok:
-                    err = unblock(strip(p["args"][1]))
-                    ok = err.get("k") == "Adt" and err["variant"] == "InvalidReasonCode" and \
-                        [pp(strip(z["e"])) for z in err["fields"]] == ["header.typ", pp(strip(x["args"][0]))]
-                    gp = par.get(id(p))
-                    ok = ok and gp is not None and gp.get("k") == "Try"
-                R.check(ok, "H-raise", "reason-code/%s/%s" % (f["root"], x["fn"]["impl_self"].rsplit("::", 1)[1]),
-                        "%s: an unknown reason byte is not reported as InvalidReasonCode(header.typ, that byte)" % f["root"], where=loc(x))
-    R.floor("H-raise", "reason-code conversions", k, 14)
+    # (3) reason-code bytes: evaluated per decoder (r_pe3.h_reason_bytes)
+    import r_pe3
+    r_pe3.h_reason_bytes(F, R)
     # from_u8 tables raise the documented variant with the scrutinee byte
     from r_tables import code_enums
     from tables import find_param_match
@@ -192,22 +174,8 @@ def h_raise(F, R):
         else:
             ok = len(errs) == 1 and errs[0]["variant"] == want
             R.check(ok, "H-raise", "from_u8/%s" % name, "%s::from_u8 raises %s (documented: %s)" % (name, [e["variant"] for e in errs], want), where=fid)
-    # EmptySubscription before the topic loop in the four (UN)SUBSCRIBE decoders
-    for fid in ("v3::subscribe::Subscribe::decode_async", "v3::subscribe::Unsubscribe::decode_async",
-                "v5::subscribe::Subscribe::decode_async", "v5::subscribe::Unsubscribe::decode_async"):
-        b = nbody(F, fid)
-        ok = False
-        order = []
-        for x in walk_all(b):
-            if x.get("k") == "If":
-                c = unblock(x["cond"])
-                if c.get("k") == "Binary" and c["op"] == "Eq" and pp(strip(c["l"])) == "remaining_len" and const_eval(c["r"]) == 0 \
-                        and any(y.get("k") == "Adt" and y.get("variant") == "EmptySubscription" for y in walk_all(x["then"])):
-                    order.append("check")
-            if x.get("k") == "While" and "remaining_len" in pp(x["cond"]):
-                order.append("loop")
-        R.check(order[-2:] == ["check", "loop"], "H-raise", "empty-subscription/%s" % fid,
-                "%s does not reject an empty topic list with EmptySubscription before its topic loop" % fid, where=fid)
+    # EmptySubscription: evaluated on a frame that ends after the identifier (r_pe3.h_empty_subscription)
+    r_pe3.h_empty_subscription(F, R)
     R.sample({"rule": "H-raise", "variants": {v: len(l) for v, l in sorted(by_variant.items())}})
 
 
